@@ -720,6 +720,12 @@ def c16_scripts(ctx):
             items = first + rest
             if len(rp[0]) < len(w["head"]):
                 items = [">" + traffic.hx(p) for p in rp] + ["<" + traffic.hx(p) for p in sp]
+        if w["upgrade"] and rng.random() < 0.12:
+            # S44: an HTTP/0.9 request line pipelined behind the upgrade request leaves the request side without a transaction
+            # (REQ_IGNORE_DATA_AFTER_HTTP_0_9); the 101 then puts both directions in tunnel mode
+            w = dict(w, zero9=True)
+            items = [">" + traffic.hx(w["head"] + b"GET /\n")] + ["<" + traffic.hx(p) for p in sp] + \
+                    [">" + traffic.hx(p) for p in traffic.chunkings(w["payload"] or b"\x81\x02hi", rng, "rand")]
         extra = ["conn dump"]
         if rng.random() < 0.3:
             # the client half-closes (htp_connp_req_close touches the request direction only), the server goes on sending: a response
@@ -766,7 +772,8 @@ def make_c16_oracle(by_id):
                 found.append(("S8-tunnel", "close after tunnel mode: statuses %s,%s, %d callbacks" % (c.rc, c.rc2, len(c.events))))
             if tun and c.dir in ("req", "res"):
                 if c.rc != TUNNEL:
-                    found.append(("tunnel-left", "%s returned %d after tunnel mode was entered" % (c.dir, c.rc)))
+                    s44 = w.get("zero9") and c.dir == "req" and c.rc == 3
+                    found.append(("S44" if s44 else "tunnel-left", "%s returned %d after tunnel mode was entered" % (c.dir, c.rc)))
                 if c.events:
                     found.append(("tunnel-callbacks", "%d callbacks after tunnel mode was entered" % len(c.events)))
             if c.rc == TUNNEL:
@@ -778,7 +785,8 @@ def make_c16_oracle(by_id):
                 # re-targets the waiting request direction (REQ_FINALIZE on a new transaction) so that the probe never runs
                 server_first = len(w["after"]) > 0 and not w["upgrade"] and any(
                     e.name == "response_start" and e.tx >= 1 for c in calls for e in c.events)
-                found.append(("S32" if server_first else "no-tunnel", "status %d + %s payload: final statuses in=%s out=%s, tunnel expected" % (
+                found.append(("S44" if (w.get("zero9") and g.get("in_status") == "3" and g.get("out_status") == "4") else
+                              "S32" if server_first else "no-tunnel", "status %d + %s payload: final statuses in=%s out=%s, tunnel expected" % (
                     w["status"], w["kind"], g.get("in_status"), g.get("out_status"))))
         # (c) refused CONNECT / 2xx with HTTP payload: the payload requests are parsed exactly once, in order
         if g and not w["upgrade"] and w["kind"] == "http" and not want_tunnel:
